@@ -136,6 +136,21 @@ func (vc *VC) stdIntrinsic(fr *Frame, fn *ssa.Function, name string, args []SV, 
 			vc.noteAssumption("library model: Unix seconds of every instant lie within +-2^62 (no overflow in bucket arithmetic)")
 		}
 		return []SV{scalar("(unixsec " + args[0].L[0] + ")")}, true
+	case "time.Unix":
+		note("time.Unix(sec, nsec) is the instant nsec nanoseconds into second sec; instants are ordered consistently with their Unix seconds")
+		vc.declareUF("unixsec", "(Real) (_ BitVec 64)")
+		if !vc.declared["ax:unixsec"] {
+			vc.declared["ax:unixsec"] = true
+			vc.decls = append(vc.decls, "(assert (forall ((a Real) (b Real)) (! (=> (<= a b) (bvsle (unixsec a) (unixsec b))) :pattern ((unixsec a) (unixsec b)))))",
+				"(assert (forall ((a Real)) (! (and (bvslt (bvneg (_ bv4611686018427387904 64)) (unixsec a)) (bvslt (unixsec a) (_ bv4611686018427387904 64))) :pattern ((unixsec a)))))")
+			vc.noteAssumption("library model: Unix seconds of every instant lie within +-2^62 (no overflow in bucket arithmetic)")
+		}
+		t := vc.fresh("Real", "unixt")
+		sec, nsec := args[0].L[0], args[1].L[0]
+		inRange := and("(bvsle (_ bv0 64) "+nsec+")", "(bvslt "+nsec+" (_ bv1000000000 64))", "(bvslt (bvneg (_ bv4611686018427387904 64)) "+sec+")", "(bvslt "+sec+" (_ bv4611686018427387904 64))")
+		vc.assume(implies(inRange, and(eq("(unixsec "+t+")", sec), "(> "+t+" 0.0)")))
+		vc.assume(implies(inRange, "(forall ((a!q Real)) (! (and (=> (bvslt (unixsec a!q) "+sec+") (< a!q "+t+")) (=> (bvsgt (unixsec a!q) "+sec+") (> a!q "+t+")) (=> (and (= (unixsec a!q) "+sec+") (= "+nsec+" (_ bv0 64))) (>= a!q "+t+"))) :pattern ((unixsec a!q))))"))
+		return []SV{scalar(t)}, true
 	case "(time.Time).UnixNano":
 		vc.declareUF("unixnano", "(Real) (_ BitVec 64)")
 		return []SV{scalar("(unixnano " + args[0].L[0] + ")")}, true
@@ -165,7 +180,13 @@ func (vc *VC) stdIntrinsic(fr *Frame, fn *ssa.Function, name string, args []SV, 
 		return []SV{scalar(r)}, true
 	case "math/bits.OnesCount64":
 		vc.declareUF("popcount64", "((_ BitVec 64)) (_ BitVec 64)")
-		return []SV{scalar("(popcount64 " + args[0].L[0] + ")")}, true
+		x := args[0].L[0]
+		r := "(popcount64 " + x + ")"
+		// what callers use: the count is 0 exactly for 0 and 1 exactly for powers of two
+		vc.assume(and("(bvule "+r+" (_ bv64 64))",
+			"(= (= "+r+" (_ bv0 64)) (= "+x+" (_ bv0 64)))",
+			"(= (= "+r+" (_ bv1 64)) (and (not (= "+x+" (_ bv0 64))) (= (bvand "+x+" (bvsub "+x+" (_ bv1 64))) (_ bv0 64))))"))
+		return []SV{scalar(r)}, true
 	case "math.Log2", "math.Log", "math.Pow", "math.Ceil":
 		f := quoteSym("fn:" + name)
 		var sig []string
